@@ -11,11 +11,12 @@ from entity_query_language import From
 
 ASSUMPTIONS = [
     "the domain is a one-shot logging generator; the log length is observed right after each delivered result",
-    "one result iterator at a time; histories are sequences of NEW / NEXT / CLOSE / FULL chosen through the solver",
+    "one result iterator at a time; histories are sequences of NEXT / CLOSE / FULL chosen through the solver (NEXT and FULL "
+    "start a new evaluation when none is open)",
     "a later evaluation may be served from the memoised prefix: the expected log length after the k-th result is "
     "max(length before, 1 + position of the k-th qualifying element)",
 ]
-BOUNDS = {"quick": dict(domain_objects=4, leaves="L<=2", history_ops=4), "thorough": dict(domain_objects=5, leaves="L<=3", history_ops=5)}
+BOUNDS = {"quick": dict(domain_objects=4, leaves="L<=2", history_ops=3), "thorough": dict(domain_objects=5, leaves="L<=3", history_ops=4)}
 LIMITS = {"quick": dict(max_paths=30000, max_wall=200), "thorough": dict(max_paths=400000, max_wall=900)}
 FIDELITY_EVERY = {"quick": 4, "thorough": 2}
 WALL_BUDGET = {"quick": 500, "thorough": 3300}
@@ -53,14 +54,15 @@ class C07(Case):
         H = sp.get("H", 3)
         try:
             for t in range(H):
-                enabled = ["NEW"] if it is None else ["NEXT", "CLOSE", "FULL"]
-                op = enabled[mk.choice("op%d" % t, len(enabled))] if len(enabled) > 1 else enabled[0]
-                if op == "NEW":
+                # NEXT and FULL start a new evaluation when no iterator is open (so a history is compact)
+                enabled = ["NEXT", "FULL"] + (["CLOSE"] if it is not None else [])
+                op = enabled[mk.choice("op%d" % t, len(enabled))]
+                if it is None:
                     before = len(log)
                     it = q.evaluate()
                     k = 0
                     events.append(["NEW", before, len(log)])
-                elif op == "NEXT":
+                if op == "NEXT":
                     before = len(log)
                     try:
                         o = next(it)
@@ -141,7 +143,7 @@ def shapes(tier, seed):
     rnd = random.Random(seed)
     out = []
     n = 4 if tier == "quick" else 5
-    H = 4 if tier == "quick" else 5
+    H = 3 if tier == "quick" else 4
     core = S.core_leaves("x")
     vocab = S.leaf_vocabulary("x")
     for leaf in vocab:
